@@ -306,6 +306,23 @@ func (c *Ctx) actionConstants() {
 			consts++
 		}
 	}
+	// the three recommendations are three different values and Hold is the zero value (what a
+	// drained or padded position carries): Sell = -1, Hold = 0, Buy = 1 as documented
+	for name, want := range map[string]int64{"Sell": -1, "Hold": 0, "Buy": 1} {
+		cst, ok := spk.Types.Scope().Lookup(name).(*types.Const)
+		good := false
+		got := "missing"
+		if ok {
+			if v, exact := constant.Int64Val(cst.Val()); exact {
+				good = v == want
+				got = fmt.Sprint(v)
+			}
+		}
+		run.Oblige(good)
+		if !good {
+			run.Violate(report.Finding{Rule: "actions/constants", Site: "strategy." + name, Detail: got, Pos: c.P.Pos(tn.Pos()), Message: fmt.Sprintf("strategy.%s is %s, documented %d: the three recommendations must be distinct and Hold the zero value", name, got, want)})
+		}
+	}
 	run.Oblige(consts == 3)
 	if consts != 3 {
 		run.Violate(report.Finding{Rule: "actions/constants", Site: "strategy.Action", Detail: fmt.Sprint(consts), Pos: c.P.Pos(tn.Pos()), Message: fmt.Sprintf("strategy.Action has %d named constants, expected Sell, Hold, Buy", consts)})
